@@ -56,4 +56,14 @@ var specs = map[string]*propSpec{
 		Faults: "resolver null/error inside and outside deferred groups; directive block/error; group completion orders",
 		Assume: []string{"which fields gqlgen chooses to defer is not predicted (read from payloads)", "comparison of merged data is key-order-insensitive (order is C01's concern)"},
 	},
+	"C03": {
+		ID: "C03", Scenario: "gatesim", Race: true, Level: "exploration", Cpu: 4,
+		Quick:    tierSpec{Runs: 12000, Budget: 75 * time.Second, Variants: []string{"v0"}},
+		Thorough: tierSpec{Runs: 600000, Budget: 15 * time.Minute, Variants: []string{"v0", "v1", "v2"}},
+		Real:     []string{"graphql/executor (gates, parseQuery, extension folding)", "graphql/handler.Server + transport.POST (half of the histories)", "graphql/handler/lru", "generated executor (hooks reach resolvers through it)", "gqlparser validator (global rule list included)"},
+		Stubbed:  []string{"extensions (63 instrumented hook-subset types)", "query cache (harness cache with park points, eviction) when selected", "resolvers/directives (universal resolver)", "request arrival and overlap (scheduler)"},
+		Rule: "one run = one history of up to 8 (thorough 12) requests drawn with repetition from a working set of valid corpus documents and systematically invalidated variants (parse, validation, operation selection, variable coercion), against one executor or handler.Server with 0-4 instrumented extensions (each a seeded non-empty subset of the six hook interfaces, some rejecting in the parameter/context mutators), cache in {none, harness cache, parking harness cache with eviction, lru 1..3}, suggestions on/off; requests are launched sequentially, overlapped or as simultaneous pairs, and every resolver / cache call parks at the scheduler. Oracle: verdict per request from gqlparser alone; rejected requests have no interceptor/directive/resolver event and errors-only responses; accepted ones match the reference executor and the lifecycle grammar (registration order, first-registered outermost, exactly once per operation/response/root field/field). Race detector on. non-trivial = at least two requests or one extension; distinct = hash of the history, configuration and event log",
+		Faults: "systematically invalidated documents, rejecting extensions, cache eviction at any quiescent point, overlapping and simultaneous requests",
+		Assume: []string{"subscriptions are not part of these histories (their gate is checked by the websocket scenario)", "the semantic window between RemoveRule and ReplaceRule has no seam; it is covered only through the race detector"},
+	},
 }
